@@ -248,10 +248,20 @@ HARNESS_FAMILIES = {
 HARNESS_DIR = os.path.join(ENGINES_DIR, "harness")
 
 
-def emit_harness(ctx):
+X_TARGET = os.path.join("target", "x")  # second configuration: everything with pest's grammar-extras
+# properties whose harness check also drives the grammar-extras configuration (shards x_*)
+X_PROPS = ["C01", "C02", "C03", "C04", "C05", "C07", "C10", "C11", "C15", "C16", "C17", "C18", "C20"]
+X_FAMILIES = ["extras", "core", "getter", "rec", "arity", "repo", "stack"]
+
+
+def emit_harness(ctx, config="plain"):
     """Regenerate the harness sources from the corpus (files are only rewritten when they change)."""
-    vgen = ctx.build("vgen")
-    out = os.path.join(ctx.scratch, "%s-emit.json" % ctx.pid)
+    if config == "extras":
+        ctx.build("vgen", extra=["--features", "vgen/extras", "--target-dir", os.path.join(ctx.root, X_TARGET)])
+        vgen = os.path.join(ctx.root, X_TARGET, "release", "vgen")
+    else:
+        vgen = ctx.build("vgen")
+    out = os.path.join(ctx.scratch, "%s-emit%s.json" % (ctx.pid, "-x" if config == "extras" else ""))
     cmd = [vgen, "--cmd", "emit", "--shards", "16", "--tier", ctx.tier, "--seed", str(ctx.seed), "--out", out]
     p = subprocess.run(cmd, cwd=ctx.root, env=ctx.env, stdout=subprocess.PIPE, stderr=subprocess.STDOUT, text=True, timeout=600)
     if p.returncode != 0 or not os.path.exists(out):
@@ -268,7 +278,7 @@ def attribute_build_errors(ctx, output, bins):
     import re
     hits = []
     cache = {}
-    for m in re.finditer(r"^error(\[E\d+\])?: (.*)\n\s+--> src/bin/(s_\w+)\.rs:(\d+):", output, re.M):
+    for m in re.finditer(r"^error(\[E\d+\])?: (.*)\n\s+--> src/bin/([sx]_\w+)\.rs:(\d+):", output, re.M):
         msg, shard, line = m.group(2), m.group(3), int(m.group(4))
         if shard not in cache:
             try:
@@ -292,8 +302,10 @@ def attribute_build_errors(ctx, output, bins):
     return hits
 
 
-def build_harness(ctx, bins, profile="dev", toolchain=None, extra_env=None, target=None):
+def build_harness(ctx, bins, profile="dev", toolchain=None, extra_env=None, target=None, config="plain"):
     args = ["build", "--offline"]
+    if config == "extras":
+        args += ["--features", "extras", "--target-dir", os.path.join(ctx.root, X_TARGET)]
     if profile == "release":
         args.append("--release")
     if target:
@@ -378,9 +390,32 @@ def confirm_crash(ctx, crash, bin_dir, prop, families, env=None, wrapper=None):
 
 
 def run_harness(ctx, profile="dev", prop=None, families=None, extra_args=None):
+    """The plain configuration, plus (for X_PROPS, dev profile) the grammar-extras configuration."""
+    prop = prop or ctx.pid
+    if ctx.replay:
+        with open(ctx.replay) as f:
+            w = json.load(f).get("witness") or {}
+        return run_harness_cfg(ctx, profile, prop, families, extra_args, "extras" if w.get("config") == "extras" else "plain")
+    plain = run_harness_cfg(ctx, profile, prop, families, extra_args, "plain")
+    if prop not in X_PROPS or profile != "dev" or families is not None:
+        return plain
+    fams = [f for f in X_FAMILIES if f in HARNESS_FAMILIES[prop] or f == "extras"]
+    extras = run_harness_cfg(ctx, profile, prop, fams, extra_args, "extras")
+    keep = {k: plain.get(k) for k in ("max_tick_ratio_x100", "engine_args", "rule")}
+    extras["counters"] = dict(extras.get("counters", {}), **{"extras_config_cases": extras.get("evaluations", 0), "extras_config_programs": extras.get("programs", 0)})
+    merged = merge_results([plain, extras])
+    merged.update(keep)
+    merged["programs"] = plain.get("programs", 0) + extras.get("programs", 0)
+    merged["rules"] = plain.get("rules", 0) + extras.get("rules", 0)
+    merged["builds"] = [profile, profile + "+grammar-extras"]
+    merged["max_tick_ratio_x100"] = max(plain.get("max_tick_ratio_x100", 0), extras.get("max_tick_ratio_x100", 0))
+    return merged
+
+
+def run_harness_cfg(ctx, profile="dev", prop=None, families=None, extra_args=None, config="plain"):
     prop = prop or ctx.pid
     fams = families or HARNESS_FAMILIES[prop]
-    emit = emit_harness(ctx)
+    emit = emit_harness(ctx, config)
     bins = [s["bin"] for s in emit["shards"] if s["family"] in fams and s["grammars"]]
     if ctx.replay:
         with open(ctx.replay) as f:
@@ -390,7 +425,7 @@ def run_harness(ctx, profile="dev", prop=None, families=None, extra_args=None):
         if not bins:
             raise Inconclusive("replay: grammar %s is not part of the current corpus (a thorough-tier random grammar needs the same VERIF_SEED and --tier thorough)" % gid)
         extra_args = (extra_args or []) + ["--replay", ctx.replay]
-    ok, derive_errors = build_harness(ctx, bins, profile)
+    ok, derive_errors = build_harness(ctx, bins, profile, config=config)
     result = {"evaluations": 0, "distinct_nontrivial": 0, "counters": {}, "samples": [], "violations": [], "violation_counts": {},
               "inconclusive": [], "notes": []}
     if not ok:
@@ -405,7 +440,7 @@ def run_harness(ctx, profile="dev", prop=None, families=None, extra_args=None):
             result["evaluations"] = len(derive_errors)
             return result
         raise Inconclusive("generated code of %s does not compile (%s); see C11 / C20" % (derive_errors[0]["module"], derive_errors[0]["message"]))
-    bin_dir = os.path.join(ctx.root, "target", "release" if profile == "release" else "debug")
+    bin_dir = os.path.join(ctx.root, X_TARGET if config == "extras" else "target", "release" if profile == "release" else "debug")
     docs, crashes = run_shards(ctx, bins, bin_dir, prop, fams, extra_args)
     merged = merge_results(docs) if docs else result
     merged["programs"] = sum(d.get("programs", 0) for d in docs)
@@ -594,8 +629,12 @@ def run_miri(ctx, emit, bins):
     return result
 
 
-def run_vgen(ctx, cmd, name, extra=None):
-    vgen = ctx.build("vgen")
+def run_vgen(ctx, cmd, name, extra=None, config="plain"):
+    if config == "extras":
+        ctx.build("vgen", extra=["--features", "vgen/extras", "--target-dir", os.path.join(ctx.root, X_TARGET)])
+        vgen = os.path.join(ctx.root, X_TARGET, "release", "vgen")
+    else:
+        vgen = ctx.build("vgen")
     return ctx.run_engine(vgen, ["--cmd", cmd] + (extra or []), name)
 
 
@@ -626,6 +665,10 @@ def run_c11(ctx):
     docs = [run_harness(ctx)]
     g = run_vgen(ctx, "c11", "vgen-c11")
     docs.append(g)
+    # the same monitor with pest's grammar-extras on in pest_meta and in the generator (`e+` and tags kept)
+    gx = run_vgen(ctx, "c11", "vgen-c11-x", config="extras")
+    gx["counters"] = {("extras_config_" + k): v for k, v in gx.get("counters", {}).items()}
+    docs.append(gx)
     docs.append(probe_inherited(ctx))
     merged = merge_results(docs)
     merged["rule"] = HARNESS_RULE + " || " + g.get("rule", "")
@@ -638,6 +681,9 @@ def run_c20(ctx):
     h = run_harness(ctx)
     # determinism: the token stream of every (grammar, option set) in three separate processes
     runs = [run_vgen(ctx, "c20det", "vgen-c20det-%d" % i) for i in range(3)]
+    runs_x = [run_vgen(ctx, "c20det", "vgen-c20det-x-%d" % i, config="extras") for i in range(3)]
+    for r, rx in zip(runs, runs_x):
+        r["streams"].update({"grammar-extras/" + k: v for k, v in rx["streams"].items()})
     det = {"evaluations": 0, "distinct_nontrivial": 0, "counters": {}, "samples": [], "violations": [], "violation_counts": {}, "inconclusive": [], "notes": []}
     base = runs[0]["streams"]
     pids = {r["pid"] for r in runs}
